@@ -139,8 +139,11 @@ def run_tree(ctx, pt):
 
 
 def pts_ubi(tier):
-    return [(Nb, p, nblk) for Nb in NBS for p in ((1 << 32) - Nb // 8, (1 << 64) - Nb // 8, (1 << 64) - 1, 1 << 95, (1 << 32) - 1)
-            for nblk in (1, 2, 3)]
+    pts = [(Nb, p, nblk) for Nb in NBS for p in ((1 << 32) - Nb // 8, (1 << 64) - Nb // 8, (1 << 64) - 1, 1 << 95, (1 << 32) - 1)
+           for nblk in (1, 2, 3)]
+    # a position carry into every bit 8..95
+    pts += [(Nb, (1 << k) - Nb // 8, 2) for Nb in NBS for k in range(8, 96)]
+    return pts
 
 
 def run_ubi(ctx, pt):
@@ -174,7 +177,7 @@ def subchecks():
         Sub('tree', pts_tree, run_tree, engine='P',
             bound='Skein-256: (Yl,Yf) in {1,2,3}^2, Ym in {2,3,4} x |M| in {0,1,Nl-1,Nl,Nl+1,2Nl,4Nl+3, enough leaves to hit the Ym cap}; 3 shapes x 3 sizes for 512/1024 (thorough: all 27 shapes x 8 sizes)'),
         Sub('ubi-positions', pts_ubi, run_ubi, engine='H',
-            bound='UBI started at tweak position 2^32-Nb/8, 2^32-1, 2^64-Nb/8, 2^64-1, 2^95 with 1..3 blocks and 3 tail lengths vs the reference UBI started at the same position'),
+            bound='UBI started at tweak position 2^32-Nb/8, 2^32-1, 2^64-Nb/8, 2^64-1, 2^95 with 1..3 blocks, and at 2^k-Nb/8 for every k in 8..95 with 2 blocks and 3 tail lengths vs the reference UBI started at the same position'),
     ]
 
 
